@@ -51,7 +51,7 @@ def plan(tier, seed):
 
 
 def mandatory(tier):
-    out = []
+    out = ["derived_grid", "derived_grid/fractional_internal_size"]
     for a, b in itertools.product(AXES, AXES):
         for g in ("same", "other"):
             out.append(f"points/{a}->{b}/{g}")
@@ -138,6 +138,23 @@ def case(ctx, i):
         g1 = gen.make_grid(p1)
         g2 = gen.make_grid(p2)
     r1, r2 = gen.ref_grid(p1), gen.ref_grid(p2)
+    if i % 4 == 3 and min(p1["size"]) >= 5:
+        # a derived grid: down/resampling leaves a fractional internal size (33 -> 16.5, reported 17); every map of
+        # the family must then use the reported size. The oracle is rebuilt from the attributes the grid reports.
+        how = str(rng.choice(["downsample", "resample", "pyramid"]))
+        with ctx.guard("derive first grid", params=p1, how=how):
+            if how == "downsample":
+                g1 = g1.downsample(1)
+            elif how == "resample":
+                g1 = g1.resample(float(g1.spacing().min()) * float(rng.uniform(1.2, 1.9)))
+            else:
+                g1 = g1.pyramid(2)[1]
+        r1 = gen.ref_of_grid(g1)
+        p1 = dict(p1, derived=how, size=[int(k) for k in g1.size()])
+        frac = bool((g1._size != g1._size.round()).any())
+        ctx.bucket("derived_grid")
+        if frac:
+            ctx.bucket("derived_grid/fractional_internal_size")
     if gen.grid_nontrivial(p1) or gen.grid_nontrivial(p2):
         ctx.nontriv(p1, p2)
     ctx.sample({"grid": p1, "second_grid": p2})
